@@ -58,7 +58,7 @@ def run(chk, quick, rnd):
         if plen <= 20:
             lm = content("ascii", plen, rnd).decode()
             add(dict(fmt="lmhash", pw=list(lm.upper().encode("cp437")[:14].ljust(14, b"\0"))), kind="lmhash", pw=lm)
-    wd = VERIF / "out" / "work" / "C02_tlcfmt_in"
+    wd = tlc.WORK / "C02_tlcfmt_in"
     wd.mkdir(parents=True, exist_ok=True)
     (wd / "cases.json").write_text(json.dumps(cases))
     r = tlc.run("MC_TlcFormats", "INIT Init\nNEXT Next\n", name="C02_tlcfmt", workers=16, env={"TRACE_FILE": str(wd / "cases.json")}, coverage=False, timeout=3000)
